@@ -13,9 +13,9 @@ use base::refmodel as rf;
 /// residues {0, 1, bs/2, bs-1} for every block count up to `nmax`, and all residues again around the
 /// parallel-width boundaries.
 pub fn cts_lengths(bs: usize, par: usize, tier: Tier) -> Vec<usize> {
-    let nmax = tier.pick(2 * par + 2, 2 * par + 3);
+    let nmax = tier.pick((2 * par + 2).max(10), (2 * par + 3).max(18));
     let mut v = std::collections::BTreeSet::new();
-    let dense_blocks: Vec<usize> = if bs <= 8 { (1..=nmax).collect() } else { vec![1, 2, 3, par, par + 1, par + 2, 2 * par + 1, nmax] };
+    let dense_blocks: Vec<usize> = if bs <= 8 { (1..=nmax).collect() } else { vec![1, 2, 3, par, par + 1, par + 2, 2 * par + 1, 8, 9, nmax] };
     for n in 1..=nmax {
         let residues: Vec<usize> = if dense_blocks.contains(&n) { (0..bs).collect() } else { vec![0, 1, bs / 2, bs - 1] };
         for r in residues {
